@@ -77,4 +77,4 @@ package cmdutils
 //@   ghostclear @call:cmdutils.(*StatementElement).Accept released
 //@   ghostset @mapupdate:map[string]int released
 //@   ensures [in-progress-mark-released] result == nil && ghost("descended") ==> ghost("released")
-//@   assert @call:cmdutils.(*StatementElement).Accept [expanded-only-when-not-in-progress] !hitVisited && arg0.stmts == endpoint.Stmt && arg0.isLastParentStmt
+//@   assert @call:cmdutils.(*StatementElement).Accept [expanded-only-when-not-in-progress] !hitVisited && in(visiting, v.visited) && arg0.stmts == endpoint.Stmt && arg0.isLastParentStmt
